@@ -73,10 +73,15 @@ def run_case(t, sels, exp, variant):
     got = attempt("rows", lambda: as_rows(tab.rows[arg]))
     if got != (want if exp["ok"] else "KeyError"):
         bad.append(("rows[...]", repr(arg), got, want if exp["ok"] else "KeyError"))
-    if len(cs) == 2:
-        got = attempt("rows.rows", lambda: as_rows(tab.rows[cs[0]].rows[cs[1]]))
+    if len(cs) >= 2:
+        def chained():
+            x = tab
+            for c in cs:
+                x = x.rows[c]
+            return as_rows(x)
+        got = attempt("rows.rows", chained)
         if got != (want if exp["ok"] else "KeyError"):
-            bad.append(("rows[s1].rows[s2]", repr(arg), got, want if exp["ok"] else "KeyError"))
+            bad.append(("rows[s1].rows[s2]" + (".rows[s3]" if len(cs) > 2 else ""), repr(arg), got, want if exp["ok"] else "KeyError"))
     if exp["ok"]:
         # a negative position denotes the same row as its non-negative equivalent
         got = attempt("indices", lambda: [int(x) % len(t) if len(t) and int(x) < 0 else int(x) for x in np.atleast_1d(tab.rows.indices[arg])])
